@@ -10,6 +10,11 @@ CHECKS = {
   text="Kernel-checked theorems C17_step_refines / C17_inv_step / C17_runs_refine / C17_from_construction / C17_copies_equal: for every state reachable from any constructor call and every (unbounded) sequence of getitem/setitem/delitem/contains/get/pop/setdefault/update/items/copy/deepcopy/pickle, the model of ordereddict.py returns exactly what an ordinary ordered dict keyed by lower-cased keys returns, with the documented default rule. The model is tied to the real class on every run by exhaustive small-scope and random op-sequence correspondence; an independent reference dict is the oracle on the real class.",
   note="Trusted: Lean kernel; hand model of ordereddict.py (correspondence-checked, string keys, opaque values, ASCII lower); CPython's OrderedDict C call-back behaviour as observed; deepcopy aliasing checked on real objects only.",
   ref="§6 C17"),
+ "C18": dict(
+  technique="Lean 4 proofs of the update/find laws on a structural-recursive model of dictutils.py (update = left fold of single-entry updates, each with its law) + I/O correspondence with the real functions",
+  text="Kernel-checked theorems over Model/DictUtils.lean for all dictionaries, patches and lists (unbounded nesting): C18_update_seq/_step (update is the sequential composition of single-entry updates), _untouched, _scalar, _no_overwrite, _merge_rec, _list_zip/_list_merge/_list_none_skips/_list_extra/_list_delete/_list_rest_kept, _delete_key/_delete_obj/_root_delete, C18_find_first, _findall_spec, _findunique_distinct/_sorted_ints, _findkey_path, C18_find_pure (threading the C17 dict states through the search). The model is tied to the real functions by correspondence on random nested plain/Mapfile dicts; an independent reference merge and law checks (arguments unchanged, identity of the result) are the oracle.",
+  note="Trusted: Lean kernel; hand model of dictutils.py (correspondence-checked); domain: type-compatible patches, patch keys distinct under case folding for Mapfile-dict targets, deletion markers for existing keys, bool overwrite; result/patch aliasing not modelled.",
+  ref="§6 C18"),
 }
 NOT_APPLICABLE = {}
 ALL = [f"C{i:02d}" for i in range(1, 21)]
